@@ -70,6 +70,56 @@ theorem varDiag_nonneg (d hs : List ℝ) : 0 ≤ varDiag d hs := by
   obtain ⟨p, _, rfl⟩ := List.mem_map.1 hx
   positivity
 
+/-- an observable that does not depend on the free parameters has a vanishing gradient … -/
+theorem grads_const (c : ℝ) (θ hs : List ℝ) : ∀ x ∈ grads (fun _ => c) θ hs, x = 0 := by
+  intro x hx
+  unfold grads at hx
+  obtain ⟨p, _, rfl⟩ := List.mem_map.1 hx
+  simp [dfdp]
+
+theorem varCov_zero (d : List ℝ) (C : List (List ℝ)) (hd : ∀ x ∈ d, x = 0) : varCov d C = 0 := by
+  rw [varCov_eq_sum]
+  apply List.sum_eq_zero
+  intro x hx
+  obtain ⟨p, hp, rfl⟩ := List.mem_map.1 hx
+  have h1 : p.1 = 0 := hd _ (List.of_mem_zip hp).1
+  apply List.sum_eq_zero
+  intro y hy
+  obtain ⟨q, _, rfl⟩ := List.mem_map.1 hy
+  rw [h1]; ring
+
+theorem varDiag_zero (d hs : List ℝ) (hd : ∀ x ∈ d, x = 0) : varDiag d hs = 0 := by
+  rw [varDiag_eq_sum]
+  apply List.sum_eq_zero
+  intro x hx
+  obtain ⟨p, hp, rfl⟩ := List.mem_map.1 hx
+  rw [hd _ (List.of_mem_zip hp).1]; ring
+
+/-- … and therefore uncertainty exactly 0, with or without a covariance (parameters the observable does not see —
+    e.g. a fixed form-factor slope in a CFF-only observable — contribute nothing) -/
+theorem predictUnc_const (c : ℝ) (θ hs : List ℝ) (C : Option (List (List ℝ))) :
+    predictUnc (fun _ => c) θ hs C = (c, 0) := by
+  unfold predictUnc
+  cases C with
+  | some C => simp only [varCov_zero _ C (grads_const c θ hs)]; simp [ksqrt]
+  | none => simp only [varDiag_zero _ hs (grads_const c θ hs)]; simp [ksqrt]
+
+/-- one free parameter: √(gᵀCg) with C = (σ²) is |g|·|σ|, and the no-covariance fallback gives the same number — the
+    two branches of the code agree where they must -/
+theorem predictUnc_one_param (f : List ℝ → ℝ) (θ h : ℝ) :
+    (predictUnc f [θ] [h] (some [[h ^ 2]])).2 = |dfdp f [θ] h 0| * |h| ∧
+    (predictUnc f [θ] [h] none).2 = |dfdp f [θ] h 0| * |h| := by
+  have hv : varCov [dfdp f [θ] h 0] [[h ^ 2]] = (dfdp f [θ] h 0 * h) ^ 2 := by
+    simp [varCov]; ring
+  have hd : varDiag [dfdp f [θ] h 0] [h] = (dfdp f [θ] h 0 * h) ^ 2 := by
+    simp [varDiag]
+  have hg : grads f [θ] [h] = [dfdp f [θ] h 0] := by simp [grads, List.zipIdx]
+  constructor
+  · show ksqrt (varCov (grads f [θ] [h]) [[h ^ 2]]) = _
+    rw [hg, hv]; unfold ksqrt; rw [Real.sqrt_sq_eq_abs, abs_mul]
+  · show ksqrt (varDiag (grads f [θ] [h]) [h]) = _
+    rw [hg, hd]; unfold ksqrt; rw [Real.sqrt_sq_eq_abs, abs_mul]
+
 /-- the observable restricted to each coordinate line through θ is a polynomial of degree ≤ 2 in the
     shift: slope `g i` (= ∂f/∂θᵢ at θ), curvature `b i`.  Affine observables have b = 0. -/
 def LocallyQuadratic (f : List ℝ → ℝ) (θ : List ℝ) (g b : Nat → ℝ) : Prop :=
